@@ -140,8 +140,63 @@ fn check_values<T: Sig + Debug>(vals: &[T], expect: impl Fn(&T) -> Vec<u8>) -> (
     (n, None)
 }
 
+/// a key type whose identity is, by construction, the byte string it holds (it implements only `get_sig`)
+#[derive(Clone, Debug, PartialEq, Eq, Hash)]
+struct Declared(Vec<u8>);
+impl Sig for Declared {
+    fn get_sig(&self) -> Vec<u8> {
+        self.0.clone()
+    }
+}
+
+/// the Sha-based ProbMinHash must see a key of type T exactly as its declared bytes `get_sig()`: the same weighted set fed
+/// with the keys themselves and with `Declared(key.get_sig())` keys must select the same key at every position, for every
+/// insertion order (a scratch buffer reused between keys, an empty identity, a short cut for some lengths show here)
+fn sha_uses_declared_bytes<T: Sig + Debug + Clone + Eq + std::hash::Hash>(keys: &[T], init: T) -> Option<String> {
+    let weights = [1.0f64, 3.0, 0.5, 2.0, 1.5];
+    let n = keys.len().min(4);
+    let decl: Vec<Declared> = keys[..n].iter().map(|k| Declared(k.get_sig())).collect();
+    for i in 0..n {
+        for j in 0..i {
+            if decl[i] == decl[j] {
+                return None; // not faithful: reported by the byte checks
+            }
+        }
+    }
+    let init_d = Declared(vec![0xEE; 37]);
+    for perm in crate::common::permutations(n) {
+        let mut map: IndexMap<T, f64> = IndexMap::new();
+        let mut map_d: IndexMap<Declared, f64> = IndexMap::new();
+        for &i in &perm {
+            map.insert(keys[i].clone(), weights[i]);
+            map_d.insert(decl[i].clone(), weights[i]);
+        }
+        let mut h = ProbMinHash3aSha::<T>::new(8, init.clone());
+        h.hash_weigthed_idxmap(&map);
+        let mut hd = ProbMinHash3aSha::<Declared>::new(8, init_d.clone());
+        hd.hash_weigthed_idxmap(&map_d);
+        let a: Vec<Option<usize>> = h.get_signature().iter().map(|s| keys[..n].iter().position(|k| k == s)).collect();
+        let b: Vec<Option<usize>> = hd.get_signature().iter().map(|s| decl.iter().position(|k| k == s)).collect();
+        if a != b {
+            return Some(format!("ProbMinHash3aSha on keys {:?} inserted in the order {:?} selects key indices {:?}, on keys that are their get_sig() bytes it selects {:?}", &keys[..n], perm, a, b));
+        }
+        // the same through the HashMap entry point
+        let hm: std::collections::HashMap<T, f64> = map.iter().map(|(k, w)| (k.clone(), *w)).collect();
+        let mut h2 = ProbMinHash3aSha::<T>::new(8, init.clone());
+        h2.hash_weigthed_hashmap(&hm);
+        let a2: Vec<Option<usize>> = h2.get_signature().iter().map(|s| keys[..n].iter().position(|k| k == s)).collect();
+        if a2 != b {
+            return Some(format!("ProbMinHash3aSha (HashMap entry) on keys {:?} selects key indices {:?}, on keys that are their get_sig() bytes it selects {:?}", &keys[..n], a2, b));
+        }
+    }
+    None
+}
+
 /// the Sha-based ProbMinHash fed with keys of type T must be insertion-order independent
 fn sha_order_independent<T: Sig + Debug + Clone + Eq + std::hash::Hash>(keys: &[T], init: T) -> Option<String> {
+    if let Some(w) = sha_uses_declared_bytes(keys, init.clone()) {
+        return Some(w);
+    }
     let weights = [1.0f64, 3.0, 0.5, 2.0];
     let n = keys.len().min(4);
     let mut first: Option<Vec<T>> = None;
@@ -188,6 +243,10 @@ fn child_vectors(which: &str, maxlen: usize, with_long: bool) -> i32 {
         if let Some(w) = sha_order_independent(&vs[1..5.min(vs.len())], vec![9u8]) {
             println!("MISMATCH type=Vec<u8> {}", w);
         }
+        // the empty vector (empty identity) among the keys
+        if let Some(w) = sha_order_independent(&vs[0..4.min(vs.len())], vec![9u8]) {
+            println!("MISMATCH type=Vec<u8> {}", w);
+        }
     }
     if which == "vec16" || which == "all" {
         let vs = all_vectors(&vec_alphabet_u16(), maxlen, &long);
@@ -205,6 +264,10 @@ fn child_vectors(which: &str, maxlen: usize, with_long: bool) -> i32 {
         if let Some(w) = sha_order_independent(&vs[1..5.min(vs.len())], vec![9u16]) {
             println!("MISMATCH type=Vec<u16> {}", w);
         }
+        // the empty vector (empty identity) among the keys
+        if let Some(w) = sha_order_independent(&vs[0..4.min(vs.len())], vec![9u16]) {
+            println!("MISMATCH type=Vec<u16> {}", w);
+        }
     }
     if which == "vec32" || which == "all" {
         let vs = all_vectors(&vec_alphabet_u32(), maxlen, &long);
@@ -220,6 +283,10 @@ fn child_vectors(which: &str, maxlen: usize, with_long: bool) -> i32 {
             println!("MISMATCH type=Vec<u32> (vector with spare capacity) {}", b);
         }
         if let Some(w) = sha_order_independent(&vs[1..5.min(vs.len())], vec![9u32]) {
+            println!("MISMATCH type=Vec<u32> {}", w);
+        }
+        // the empty vector (empty identity) among the keys
+        if let Some(w) = sha_order_independent(&vs[0..4.min(vs.len())], vec![9u32]) {
             println!("MISMATCH type=Vec<u32> {}", w);
         }
     }
